@@ -42,8 +42,9 @@ type LCase struct {
 	VarExp   bool      `json:"varexp,omitempty"`
 	Resolver bool      `json:"resolver,omitempty"` // pass a resolver that knows no variable (else none)
 	Meta     string    `json:"meta,omitempty"`
-	Refs     []LRef    `json:"refs,omitempty"` // planted reference faults (VarExp only)
-	Spell    []int     `json:"spell,omitempty"` // how the data is spelled (nested, dotted keys, mixed: hist_test.go); empty: nested
+	Refs     []LRef    `json:"refs,omitempty"`   // planted reference faults (VarExp only)
+	Spell    []int     `json:"spell,omitempty"`  // how the data is spelled (nested, dotted keys, mixed: hist_test.go); empty: nested
+	Layers   int       `json:"layers,omitempty"` // != 0: the data is loaded as two inputs one after the other (hist_test.go)
 	Ops      []LOp     `json:"ops"`
 }
 
@@ -91,6 +92,9 @@ func genLCase(t *rapid.T) LCase {
 	}
 	if rapid.IntRange(0, 9).Draw(t, "spelled") < 4 {
 		c.Spell = genSpell(t)
+	}
+	if rapid.IntRange(0, 4).Draw(t, "layered") == 0 {
+		c.Layers = rapid.IntRange(1, 1<<16-1).Draw(t, "layers")
 	}
 	// histories: in a third of the cases removals (which move the following elements of a list) and
 	// replacements come first and are frequent
@@ -415,7 +419,8 @@ func runLCase(c LCase, r *runlog.R) error {
 
 	var cfg *ucfg.Config
 	data, sp := respell(c.Tree.Go(), c.Spell)
-	err := uc.Safe("NewFrom", func() (e error) { cfg, e = ucfg.NewFrom(data, nopts...); return })
+	layered := false
+	err := uc.Safe("NewFrom", func() (e error) { cfg, layered, e = loadLayered(data, c.Layers, nopts); return })
 	if err != nil {
 		if strings.Contains(err.Error(), "panicked") && !isTyped(err) {
 			return err
@@ -619,6 +624,8 @@ func runLCase(c LCase, r *runlog.R) error {
 	for k := range movedKinds {
 		r.Class("... the moved element is a(n) " + k)
 	}
+	r.ClassIf(layered, "layers: the data is loaded as two inputs one after the other")
+	r.ClassIf(layered && asserted > 0, "layers: two inputs, path of a failing setting asserted")
 	if len(c.Spell) > 0 {
 		r.Class("spelling: data re-spelled")
 		r.ClassIf(sp.dotted > 0, "spelling: dotted keys")
@@ -632,7 +639,7 @@ func runLCase(c LCase, r *runlog.R) error {
 
 var subLow = runlog.Register(&runlog.Sub[LCase]{
 	Name: "lowlevel",
-	Rule: "random data tree (keys a-d, in 2/3 of the cases also names with %, %d, quotes, braces, blanks, non-ASCII; depth <= 3; strings incl. texts with % and ${...} references that resolve, do not resolve or are cyclic when VarExp is on) normalised with PathSep/MetaData (source names incl. %, quotes, braces)/VarExp. With VarExp 0-3 unresolvable references of a known shape are planted in random objects, with auxiliary settings in other objects: missing variable or missing key below an existing object, index out of range of an existing list, self cycle, cycle of length 2 and 3, reference into a cycle, path through an existing primitive, chain ending in a missing variable, ${x:?message}; plain or inside a splice; a quarter of them under a name with % and a quote. Then 1-6 calls of Bool/Int/Uint/Float/String/Child/Has/Remove/CountField/Set*/SetChild/Unpack on real paths of the tree (planted references three times as often) and on paths extended through primitives, to missing keys and out-of-range indices, with and without idx, with and without a resolver that knows no variable. Every non-nil error must be a ucfg.Error with Reason and Class. A getter addressing an existing setting it can not convert (container, wrong primitive kind, unparsable string, ${nope} with the resolver, a planted cycle / path through a primitive / error expansion with or without resolver, a planted missing variable with the resolver) must fail; EVERY error of a getter or of CountField that addresses an existing setting (strict walk of the tree: keys of objects, in-range indices of lists) must end in accessing|in field '<full path of the setting that was read>' (source:'<name>') - the source demanded whenever MetaData was given (asserted until the first successful mutation). Non-trivial: at least one error on an address of >= 2 segments or on an unresolvable reference. Distinct: hash of the case.",
+	Rule: "random data tree (keys a-d, in 2/3 of the cases also names with %, %d, quotes, braces, blanks, non-ASCII; depth <= 3; strings incl. texts with % and ${...} references that resolve, do not resolve or are cyclic when VarExp is on) normalised with PathSep/MetaData (source names incl. %, quotes, braces)/VarExp; in 40% of the cases the data is re-spelled first (every object/list nested, with its children under dotted keys of the parent - list elements by numeric segments -, or piecewise; composed over all levels), in 20% it is loaded as two inputs one after the other (NewFrom + Merge; entries contributing to the same list stay together). With VarExp 0-3 unresolvable references of a known shape are planted in random objects, with auxiliary settings in other objects: missing variable or missing key below an existing object, index out of range of an existing list, self cycle, cycle of length 2 and 3, reference into a cycle, path through an existing primitive, chain ending in a missing variable, ${x:?message}; plain or inside a splice; a quarter of them under a name with % and a quote. Then 1-6 calls of Bool/Int/Uint/Float/String/Child/Has/Remove/CountField/Set*/SetChild/Unpack on real paths of the tree (planted references three times as often) and on paths extended through primitives, to missing keys and out-of-range indices, with and without idx, with and without a resolver that knows no variable; in a third of the cases edits come first (Remove/Set*/SetChild), mostly the removal of a list element that is not the last one followed by reads of the settings in and below the elements that moved down. Every non-nil error must be a ucfg.Error with Reason and Class. A getter addressing an existing setting it can not convert (container, wrong primitive kind, unparsable string, ${nope} with the resolver, a planted cycle / path through a primitive / error expansion with or without resolver, a planted missing variable with the resolver) must fail; EVERY error of a getter or of CountField that addresses an existing setting (strict walk of the tree: keys of objects, in-range indices of lists) must end in accessing|in field '<full path of the setting that was read>' (source:'<name>') - the source demanded whenever MetaData was given. The tree is a model that follows the edits: a successful Remove of a strictly addressed node deletes it (the following elements of a list move down, so the path demanded is their CURRENT position), a successful Set*/SetChild over a strictly addressed existing node replaces it (stored with the same MetaData); the first successful edit of another kind (creating, padding, through a primitive) ends the path assertions, and after any edit nothing is demanded to fail any more (planted references may mean something else). Non-trivial: at least one error on an address of >= 2 segments or on an unresolvable reference. Distinct: hash of the case.",
 	Gen:  genLCase,
 	Run:  runLCase,
 })
